@@ -291,3 +291,96 @@ HARNESSES.append(
       bounds=lambda tier: {"pipeline": "forwarder -> Server(concurrency 1 or 2, 1 ns) -> Server(concurrency 1, 8 ns) -> sink", "requests": 3,
                            "arrivals": "first at 0 or 1 ns, the others symbolic ns [0,3]; only request 1 may go through the forwarder",
                            "interruptions": "step(k1)[, step(k2)], resume with symbolic k1 in [1,60], k2 in [1,20] (thorough only)"}))
+
+
+def reset_context(sym, tier):
+    """Stateless relays whose handlers mutate the delivered event's metadata in place (a ttl counter,
+    optionally a nested hop list) and forward it, sharing or copying the context: run(); reset();
+    run() repeats the delivery sequence, and equals the run of a freshly built identical model."""
+    from happysimulator.core.entity import Entity
+    from happysimulator.core.event import Event
+    from happysimulator.core.simulation import Simulation
+    r = Result()
+    n = 2
+    ttl = [sym.int(f"ttl{i}", 0, 3) for i in range(n)]
+    t0 = [sym.int(f"t{i}", 0, 2) for i in range(n)]
+    nested = sym.bool("nested_hop_list")
+    share = sym.bool("forward_shares_context")
+
+    def build():
+        log = []
+
+        class Relay(Entity):
+            def handle_event(self, event):
+                md = event.context["metadata"]
+                log.append((md["label"], md["ttl"], len(md["hops"]) if nested else 0, self.now.nanoseconds, self.name))
+                if md["ttl"] <= 0 or (nested and len(md["hops"]) >= 2):
+                    return None                         # behaviour depends on the flat counter and on the nested list
+                md["ttl"] -= 1                          # in-place mutation of the delivered event's metadata
+                if nested:
+                    md["hops"].append(self.name)
+                ctx = event.context if share else {"metadata": dict(md)}
+                return Event(time=self.now + 1e-9, event_type="hop", target=self.peer, context=ctx)
+
+        a, b = Relay("ra"), Relay("rb")
+        a.peer, b.peer = b, a
+        sim = Simulation(entities=[a, b])
+        evs = []
+        for i in range(n):
+            md = {"label": f"p{i}", "ttl": ttl[i]}
+            if nested:
+                md["hops"] = []
+            evs.append(Event(time=Instant(t0[i]), event_type="inject", target=(a, b)[i % 2], context={"metadata": md}))
+        sim.schedule(evs)
+        return sim, log
+
+    sim, log = build()
+    sim.control
+    sim.run()
+    first = list(log)
+    del log[:]
+    sim.control.reset()
+    sim.run()
+    second = list(log)
+    sim2, log2 = build()
+    sim2.run()
+    fresh = list(log2)
+    if first != fresh:
+        r.bad("same_model_same_run", {"first": first, "fresh": fresh})
+    if second != first:
+        r.bad("reset_then_run_repeats_sequence", {"first": first, "second": second, "nested_hop_list": nested, "forward_shares_context": share})
+    if len(first) > n:
+        r.wit.add("forwarded")
+    if nested:
+        r.wit.add("nested_mutation")
+    r.obs = {"first": first}
+    return r
+
+
+def _ctx_classify(clause, draws, obs):
+    """Known finding: reset() re-creates pre-run events from a shallow copy of their metadata, so a nested
+    mutable value (here the hop list) is shared with the first run's event.  Recognised only for the
+    nested cubes and only when the re-created events arrive with a non-empty hop list."""
+    import json
+    d = dict((k, v) for k, v in draws)
+    if not clause.startswith("reset_then_run_repeats_sequence") or d.get("nested_hop_list") != 1:
+        return None
+    try:
+        detail = json.loads(clause.split(": ", 1)[1])
+    except Exception:
+        return None
+    second = detail["second"]
+    firsts = {}
+    for (label, ttl, hops, t, ent) in second:
+        firsts.setdefault(label, hops)
+    if second and any(h > 0 for h in firsts.values()):
+        return "reset-shares-nested-metadata-with-the-first-run"
+    return None
+
+
+HARNESSES.append(
+    H(name="c04_reset_context", fn=reset_context, shape="N", budget=lambda tier: 600.0, classify=_ctx_classify,
+      cubes=lambda tier: [{"nested_hop_list": a, "forward_shares_context": b} for a in range(2) for b in range(2)],
+      require=lambda tier: ["forwarded", "nested_mutation"],
+      functions=["Simulation.schedule/_save_event_specs/_replay_pre_run_events", "SimulationControl.reset", "Simulation.run"],
+      bounds=lambda tier: {"pre-run events": 2, "ttl": "symbolic 0..3", "injection instants": "symbolic ns 0..2", "metadata mutation": "ttl counter, optionally a nested list", "forwarding": "shares or copies the context"}))
